@@ -118,7 +118,8 @@ impl World {
             let mut bs: Vec<usize> = reps.clone();
             // the same module under its other option sets / comments modes
             for &i in &pool {
-                if tasks[i].name == tasks[a].name && i != a && !bs.contains(&i) {
+                // (the hand-picked option sets only; the covering-array sets c00.. are exercised by the seeded search)
+                if tasks[i].name == tasks[a].name && i != a && !bs.contains(&i) && !tasks[i].opt_name.starts_with('c') {
                     bs.push(i);
                 }
             }
